@@ -241,6 +241,39 @@ type bworld struct {
 	unlock  func([]byte)
 	utxo    contract.UtxoReader
 	nBlocks int
+	// where the chain of the fixture ends (a fork commits one more block on a
+	// copy of the stores, see moving.go): the tip, its timestamp, the
+	// transaction whose last output is the rest of B's funds
+	tip   *pb.InternalBlock
+	ts    int64
+	feeTx *pb.Transaction
+}
+
+// block submits txs, packs them into the next block of the fixture chain and
+// plays it.
+func (bw *bworld) block(tag string, txs []*pb.Transaction) error {
+	w, u, b := bw.w, bw.b.u, bw.b
+	for _, t := range txs {
+		if err := w.SubmitStrict(world.CloneTx(t)); err != nil {
+			return fmt.Errorf("universe %s backing %s: tx of block %s refused: %v", u.name, b, tag, err)
+		}
+	}
+	bw.ts++
+	blk, err := w.FormatBlock("M", bw.tip, txs, bw.ts, tag)
+	if err != nil {
+		return err
+	}
+	stored := world.CloneBlock(blk)
+	if ok, st := w.Recv(blk); !ok {
+		return fmt.Errorf("universe %s backing %s: block %s refused: %s", u.name, b, tag, st)
+	}
+	if err := w.State.PlayForMiner(blk.Blockid); err != nil {
+		return fmt.Errorf("universe %s backing %s: play %s: %v", u.name, b, tag, err)
+	}
+	vhook.Drain()
+	bw.tip = stored
+	bw.nBlocks++
+	return nil
 }
 
 // lockingReader delegates to the node's real UTXO reader and remembers which
@@ -346,31 +379,8 @@ func buildWorld(b backing) (*bworld, error) {
 	}
 	bw := &bworld{b: b, w: w}
 	root := w.Genesis.Transactions[0]
-	parent := w.Genesis
-	ts := int64(100)
-	block := func(tag string, txs []*pb.Transaction) error {
-		for _, t := range txs {
-			if err := w.SubmitStrict(world.CloneTx(t)); err != nil {
-				return fmt.Errorf("universe %s backing %s: tx of block %s refused: %v", u.name, b, tag, err)
-			}
-		}
-		ts++
-		blk, err := w.FormatBlock("M", parent, txs, ts, tag)
-		if err != nil {
-			return err
-		}
-		stored := world.CloneBlock(blk)
-		if ok, st := w.Recv(blk); !ok {
-			return fmt.Errorf("universe %s backing %s: block %s refused: %s", u.name, b, tag, st)
-		}
-		if err := w.State.PlayForMiner(blk.Blockid); err != nil {
-			return fmt.Errorf("universe %s backing %s: play %s: %v", u.name, b, tag, err)
-		}
-		vhook.Drain()
-		parent = stored
-		bw.nBlocks++
-		return nil
-	}
+	bw.tip, bw.ts = w.Genesis, 100
+	block := bw.block
 	outs := make([]world.Out, 10)
 	for i := range outs {
 		outs[i] = world.Out{To: "A", Amount: "100"}
@@ -399,6 +409,7 @@ func buildWorld(b backing) (*bworld, error) {
 		}
 	}
 	b1 := []*pb.Transaction{split, fund}
+	bw.feeTx = fund
 	var putTx, delTx *pb.Transaction
 	if len(puts) > 0 {
 		// read set: every key at its empty version; write set: the values
@@ -413,6 +424,7 @@ func buildWorld(b backing) (*bworld, error) {
 			return nil, err
 		}
 		b1 = append(b1, putTx)
+		bw.feeTx = putTx
 	}
 	if err := block("b1", b1); err != nil {
 		return nil, err
@@ -437,6 +449,7 @@ func buildWorld(b backing) (*bworld, error) {
 		if err := block("b2", []*pb.Transaction{delTx}); err != nil {
 			return nil, err
 		}
+		bw.feeTx = delTx
 	}
 	// the version every key must be reported with: position of the key in the
 	// outputs of the transaction that wrote it last
